@@ -7,6 +7,8 @@ statement list, so two texts that read to the same statements answer every query
 import DL.Model.DecRead
 import DL.Model.DecFiles
 import DL.Model.DecSem
+import DL.Lemmas.ReadRT
+import DL.Lemmas.ReadRTDecay
 namespace DL
 
 /-! ### packaging -/
@@ -142,5 +144,147 @@ def exG : RGrammar := { labelChars := "abcdefghijklmnopqrstuvwxyzABCDEFGHIJKLMNO
                         models := ["PHSP", "HELAMP"] }
 def exPlain : String := "Alias a b\nDecay X\n0.5 a b HELAMP 1.0 x;\nEnddecay\n"
 def exFancy : String := "# head\r\n\r\n  Alias   a\tb # tail\r\nDecay X\n\n   0.5  a b   HELAMP 1.0 ,\n      x ; ;\n# c\nEnddecay\n\nEnd\n"
+
+
+/-! ### the reader reads back what is written (DL/Lemmas/ReadRT.lean, DL/Lemmas/ReadRTDecay.lean)
+
+`ReadRT.renderD ℓ d` writes the statements `d` with the layout `ℓ`: any non-empty runs of blanks and
+tabs between the tokens, indentation, trailing blanks, an optional comment before each line end, LF or
+CRLF, any number of blank and comment lines between the statements (and between the lines of a decay
+block), model parameters separated by blanks, commas, line ends and comments, optional blanks before
+the semicolon, doubled semicolons, a closing `End` line.  Whatever the layout, `readDoc` gives the
+statements back; hence any two layouts of the same statements read alike. -/
+
+/-- Stage 1: label-only statements in the canonical layout (single blanks, one statement per line) -/
+theorem C02_read_simple_flat (g : RGrammar) (hg : ReadRT.GoodGrammar g) (d : Doc)
+    (hd : ∀ s ∈ d, ReadRT.FlatOK g s) :
+    readDoc g (String.ofList (ReadRT.renderDocSimple d)) = .ok d :=
+  ReadRT.read_simple_flat g hg d hd
+
+/-- Stage 2 (core): a well formed numeric literal, followed by a character that cannot continue a
+    literal, is read back exactly (first-match semantics of `SIGNED_NUMBER`) -/
+theorem C02_readNumber_show (n : NumLit) (hn : ReadRT.GoodNum n) (c : Char) (rest : List Char)
+    (hc : isDigit c = false ∧ c ≠ '.' ∧ c ≠ 'e' ∧ c ≠ 'E') :
+    readNumber (n.show ++ c :: rest) = some (n, c :: rest) :=
+  ReadRT.readNumber_show n hn (c :: rest) hc
+
+theorem C02_readNumber_show_end (n : NumLit) (hn : ReadRT.GoodNum n) :
+    readNumber n.show = some (n, []) := by
+  simpa using ReadRT.readNumber_show n hn [] trivial
+
+/-- Stage 2: all one-line statement kinds (labels, numbers, `:` and `=`), canonical layout -/
+theorem C02_read_simple_num (g : RGrammar) (hg : ReadRT.GoodGrammar g) (d : Doc)
+    (hd : ∀ s ∈ d, ReadRT.FlatNumOK g s) :
+    readDoc g (String.ofList (ReadRT.renderDocSimple d)) = .ok d :=
+  ReadRT.read_simple_num g hg d hd
+
+/-- Stage 3: every layout of one-line statements reads back to the statements -/
+theorem C02_read_layout_flat (g : RGrammar) (hg : ReadRT.GoodGrammar g) (ℓ : ReadRT.DocLayout)
+    (hℓ : ReadRT.GoodLayout ℓ) (d : Doc) (hd : ∀ s ∈ d, ReadRT.FlatNumOK g s) :
+    readDoc g (String.ofList (ReadRT.render ℓ d)) = .ok d :=
+  ReadRT.read_layout_flat g hg ℓ hℓ d hd
+
+/-- C02 for one-line statements: two layouts of the same statements read alike -/
+theorem C02_layout_flat (g : RGrammar) (hg : ReadRT.GoodGrammar g) (ℓ₁ ℓ₂ : ReadRT.DocLayout)
+    (h₁ : ReadRT.GoodLayout ℓ₁) (h₂ : ReadRT.GoodLayout ℓ₂) (d : Doc) (hd : ∀ s ∈ d, ReadRT.FlatNumOK g s) :
+    readDoc g (String.ofList (ReadRT.render ℓ₁ d)) = readDoc g (String.ofList (ReadRT.render ℓ₂ d)) :=
+  ReadRT.read_layout_irrelevant g hg ℓ₁ ℓ₂ h₁ h₂ d hd
+
+/-- Stage 4: every layout of a document of one-line statements, `ModelAlias` statements and decay
+    blocks (daughters, optional `PHOTOS`, model names with or without parameters, model aliases)
+    reads back to the statements -/
+theorem C02_read_layout_decay (g : RGrammar) (hG : ReadRT.GoodDecayGrammar g) (ℓ : ReadRT.DocLayoutD)
+    (hℓ : ReadRT.GoodLayoutD ℓ) (d : Doc) (hd : ∀ s ∈ d, ReadRT.StmtOK g s) :
+    readDoc g (String.ofList (ReadRT.renderD ℓ d)) = .ok d :=
+  ReadRT.read_layout_decay g hG ℓ hℓ d hd
+
+/-- C02 for all statement kinds: two layouts of the same statements read alike, and so answer
+    every query alike (`C02_queries`) -/
+theorem C02_layout_decay (g : RGrammar) (hG : ReadRT.GoodDecayGrammar g) (ℓ₁ ℓ₂ : ReadRT.DocLayoutD)
+    (h₁ : ReadRT.GoodLayoutD ℓ₁) (h₂ : ReadRT.GoodLayoutD ℓ₂) (d : Doc) (hd : ∀ s ∈ d, ReadRT.StmtOK g s) :
+    readDoc g (String.ofList (ReadRT.renderD ℓ₁ d)) = readDoc g (String.ofList (ReadRT.renderD ℓ₂ d)) :=
+  ReadRT.read_layout_decay_irrelevant g hG ℓ₁ ℓ₂ h₁ h₂ d hd
+
+theorem C02_layout_queries (g : RGrammar) (hG : ReadRT.GoodDecayGrammar g) (db : DB) (o : Opts)
+    (ℓ₁ ℓ₂ : ReadRT.DocLayoutD) (h₁ : ReadRT.GoodLayoutD ℓ₁) (h₂ : ReadRT.GoodLayoutD ℓ₂) (d : Doc)
+    (hd : ∀ s ∈ d, ReadRT.StmtOK g s) :
+    (readDoc g (String.ofList (ReadRT.renderD ℓ₁ d))).map (tables db o) =
+    (readDoc g (String.ofList (ReadRT.renderD ℓ₂ d))).map (tables db o) :=
+  C02_queries g db o _ _ (C02_layout_decay g hG ℓ₁ ℓ₂ h₁ h₂ d hd)
+
+/-! non-vacuity: the example grammar, a document with every statement kind, and a layout with
+    tabs, double blanks, indentation, trailing blanks, comments, CRLF, blank and comment lines and a
+    blank before the semicolon satisfy the hypotheses (all decidable) -/
+
+def exDocRT : Doc := [
+  .alias "a" "b", .chargeConj "B0" "anti-B0", .cdecay "anti-B0", .copyDecay "x" "y",
+  .lsDef "LSFLAT" "rho0", .incFactor "IncludeBirthFactor" "K*0" false, .globalPhotos true,
+  .define "dm" "0.507e12", .particleDef "B0" "5.2" (some ".1"), .particleDef "B0" "5.2" none,
+  .pythia "PythiaBothParam" "MSTJ(26)" "x" (.num "0"), .pythia "PythiaAliasParam" "MSTJ(26)" "x" (.word "foo"),
+  .jetset "MSTJ(26)" "-1", .setLsBW "rho0" "3.0", .setLsPW "a" "b" "c" "12", .changeMass "ChangeMassMin" "rho0" "1.",
+  .decay "B0" [
+    { bf := "0.5", ds := ["a", "K*0"], photos := false,
+      model := .named "HELAMP" (some [.num "1.0", .word "x", .num "-2e3"]) },
+    { bf := ".25", ds := ["a"], photos := true, model := .named "PHSP" none },
+    { bf := "1", ds := [], photos := false, model := .alias "myModel" },
+    { bf := "1", ds := ["x", "y", "z"], photos := true, model := .alias "myModel" }],
+  .modelAlias "myModel" (.named "HELAMP" (some [.num "1"])),
+  .decay "X" []]
+
+def exLineLayout : ReadRT.LLayout :=
+  { indent := [' ', ' '], gaps := [['\t'], [' ', ' ']], trail := [' '], comment := some " c".toList, crlf := true,
+    follow := [⟨[' '], none, true⟩, ⟨[], some [], false⟩], semiGap := [' '],
+    pseps := [[.blank ' '], [.comma], [.blank '\t', .newline (some " wrapped".toList) true, .blank ' ']],
+    pend := [.newline none false, .comma], semis := [[], [' ']] }
+
+def exLayoutRT : ReadRT.DocLayoutD :=
+  { pre := [⟨[' '], some "head".toList, true⟩, ⟨[], none, false⟩],
+    stmts := List.replicate 16 { main := exLineLayout } ++
+      [{ main := exLineLayout, lines := [exLineLayout, {}, exLineLayout],
+         close := { indent := ['\t'], comment := some ['x'] } }],
+    endLine := some { indent := [' '], trail := [' '], comment := some " the end".toList } }
+
+example : ReadRT.GoodGrammar exG := by decide
+example : ReadRT.GoodDecayGrammar exG := by decide
+example : ReadRT.GoodLayoutD exLayoutRT := by decide
+example : ∀ s ∈ exDocRT, ReadRT.StmtOK exG s := by decide
+example : ∀ s ∈ exDocRT.take 7, ReadRT.FlatOK exG s := by decide
+example : ∀ s ∈ exDocRT.take 16, ReadRT.FlatNumOK exG s := by decide
+
+/-- the plain example text above is the canonical rendering of its statements, so the round trip
+    theorem (not an evaluation of the reader) says what it reads to -/
+def exPlainDoc : Doc := [.alias "a" "b",
+  .decay "X" [{ bf := "0.5", ds := ["a", "b"], photos := false, model := .named "HELAMP" (some [.num "1.0", .word "x"]) }]]
+
+theorem C02_exPlain : readDoc exG exPlain = .ok exPlainDoc := by
+  have h : exPlain = String.ofList (ReadRT.renderD {} exPlainDoc) := by decide
+  rw [h]
+  exact C02_read_layout_decay exG (by decide) {} (by decide) exPlainDoc (by decide)
+
+/-- the layout of the fancy example text: a comment and an empty CRLF line first, indentation, wide
+    gaps, a tab, a trailing comment, CRLF; a blank line after `Decay X`; in the decay line a comma and a
+    wrapped parameter list, doubled semicolons, a comment line after it; a blank line after
+    `Enddecay`; the closing `End` line -/
+def exFancyLayout : ReadRT.DocLayoutD :=
+  { pre := [⟨[], some " head".toList, true⟩, ⟨[], none, true⟩],
+    stmts := [
+      { main := { indent := "  ".toList, gaps := ["   ".toList, ['\t']], trail := [' '],
+                  comment := some " tail".toList, crlf := true } },
+      { main := { follow := [⟨[], none, false⟩] },
+        lines := [{ indent := "   ".toList, gaps := ["  ".toList, [' '], [' '], "   ".toList],
+                    pseps := [[.blank ' '], [.blank ' ', .comma, .newline none false] ++ List.replicate 6 (.blank ' ')],
+                    pend := [.blank ' '], semis := [[' ']], follow := [⟨[], some " c".toList, false⟩] }],
+        close := { follow := [⟨[], none, false⟩] } }],
+    endLine := some {} }
+
+/-- the fancy example text is another layout of the same statements, so (by the theorem) it reads
+    to the same statements as the plain text -/
+theorem C02_exFancy : readDoc exG exFancy = .ok exPlainDoc := by
+  have h : exFancy = String.ofList (ReadRT.renderD exFancyLayout exPlainDoc) := by decide
+  rw [h]
+  exact C02_read_layout_decay exG (by decide) exFancyLayout (by decide) exPlainDoc (by decide)
+
+theorem C02_exFancy_exPlain : readDoc exG exFancy = readDoc exG exPlain := by
+  rw [C02_exFancy, C02_exPlain]
 
 end DL
